@@ -1457,9 +1457,14 @@ Qed.
 Lemma conflicts_keys_shape d k : In k (list_conflicts_keys d "") ->
   starts_with k "$conflicts_" = true.
 Proof.
-  unfold list_conflicts_keys. change (String.eqb "" "") with true. cbv iota.
-  intros H. apply list_keys_in in H. exact H.
+  unfold list_conflicts_keys. change (String.eqb "" "") with true. cbv iota zeta.
+  rewrite in_sort_strs. intros H. apply in_map_iff in H.
+  destruct H as [[k' v] [<- H]]. apply filter_In in H. destruct H as [_ H]. cbn [fst snd] in H.
+  apply andb_prop in H. tauto.
 Qed.
+
+Lemma list_conflicts_keys_nodup d key : NoDup (map fst (d_map d)) -> NoDup (list_conflicts_keys d key).
+Proof. intros H. unfold list_conflicts_keys. apply nodup_sort_strs. now apply nodup_filter_keys. Qed.
 
 Lemma conflicts_key_not_token k : starts_with k "$conflicts_" = true -> k <> "$$token".
 Proof. intros H ->. discriminate H. Qed.
@@ -1634,7 +1639,7 @@ Proof.
   destruct (reg_fold c dbn L (put_db n dbn d1) d1) as (dd' & E & Wd & O & K & I).
   - apply get_db_put_same.
   - exact Hc.
-  - apply list_keys_nodup, Hnd.
+  - apply list_conflicts_keys_nodup, Hnd.
   - intros k Hin. pose proof (conflicts_keys_shape d k Hin) as Hs. split.
     + now apply conflicts_key_not_token.
     + rewrite W1 by now apply conflicts_key_not_conflicts. now apply Hk.
